@@ -15,7 +15,7 @@ import numpy as np
 from .. import gmm_mstep_model as gm
 from .. import gmm_train as gt
 from .. import traces
-from ..common import pin_repo, time_limit
+from ..common import ImplementationTimeout, pin_repo, time_limit
 
 
 def run(ck):
@@ -54,10 +54,19 @@ def run(ck):
 
 def m3(ck, em, rng, count):
     trs, meta = [], []
+    timeouts = 0
     for t in range(count):
         seed = rng.randrange(10 ** 6)
         r = np.random.RandomState(seed)
         X, init = gt.make_problem(r)
+        stationary = t % 6 == 5
+        if stationary:
+            # a single Gaussian reaches its fixed point after one iteration: the reported criterion is then EXACTLY
+            # stationary, which is what a threshold of 0.0 (a legitimate setting) waits for
+            for _ in range(60):
+                if len(init["weights"]) == 1:
+                    break
+                X, init = gt.make_problem(r)
         # half of the traces on the switch sets that freeze the means while updating the variances
         sw = gt.SWITCHES[(t // 2) % 8] if t % 2 else [(False, True, False), (False, True, True)][(t // 2) % 2]
         cap = int(r.randint(2, 7))
@@ -76,7 +85,12 @@ def m3(ck, em, rng, count):
         # very trajectory, so that the stopping iteration is decided by a margin of 2 %; a third of those run without
         # an iteration limit (the threshold is then placed above, so that the unchanged rule stops by that iteration)
         fcap, tcap, placed = cap, cap, None
-        if t % 2 == 0:
+        if stationary and len(init["weights"]) == 1:
+            sw, cap, thr = (True, True, True), 6, 0.0
+            ms, A = gt.trajectory(em, X, init, cap, sw, obj, chunks)
+            fcap, tcap = (None, -1) if t % 12 == 11 else (cap, cap)
+            placed = {"threshold": 0.0, "single_gaussian": True, "unlimited": fcap is None}
+        elif t % 2 == 0:
             rep = [None] + [gt.reported(ms[k - 1], X) for k in range(1, cap + 1)]
             ks = [k for k in range(2, cap + 1) if rep[k - 1] not in (0.0, None) and np.isfinite(rep[k]) and rep[k] != rep[k - 1]]
             if ks:
@@ -87,10 +101,19 @@ def m3(ck, em, rng, count):
                 placed = {"beside_iteration": kk, "factor": f, "unlimited": bool(unlimited)}
                 if unlimited:
                     fcap, tcap = None, -1
-        with time_limit(20):
-            # every third thresholded run on a machine that was built as a MAP machine and switched to ML through
-            # set_params: it must return the very model of the plain machine's capped run
-            final = gt.fit(gt.new_machine(em, init, fcap, thr, sw, switched=(t % 3 == 2)), X, chunks)
+        try:
+            with time_limit(20):
+                # every third thresholded run on a machine that was built as a MAP machine and switched to ML through
+                # set_params: it must return the very model of the plain machine's capped run
+                final = gt.fit(gt.new_machine(em, init, fcap, thr, sw, switched=(t % 3 == 2)), X, chunks)
+        except ImplementationTimeout:
+            timeouts += 1
+            if timeouts <= 2:
+                ck.violation("M3:TraceLoop:StopsAtFirstCrossing",
+                             {"mechanism": "M3", "module": "TraceLoop", "meta": {"seed": seed, "cap": fcap, "thr": thr, "placed": placed},
+                              "detail": "training without an iteration limit did not return within 20 s although the threshold is "
+                                        "met within %d iterations" % cap})
+            continue
         tr = gt.build_trace("gmm-ml", ms, A, X, cap, thr, final)
         tr["cap"] = tcap
         trs.append(tr)
@@ -117,13 +140,14 @@ def fit_control(ck, em, rng, quick):
     def model(name, dev=(), expect_violation=False):
         text = mc.module("MC_GmmFit", ["GmmFit"], {"MC_Dev": mc.Expr("{" + ", ".join('"%s"' % d for d in dev) + "}")})
         cfg = mc.cfg(consts={"Caps": mc.Expr("{0, 1, 2}"), "MaxCalls": 3}, subst={"Dev": "MC_Dev"},
-                     invariants=["InitOnlyWhenMeansUnset", "FitsCompose", "MapStartsFromPrior", "DefaultVariances"],
+                     invariants=["InitOnlyWhenMeansUnset", "FitsCompose", "MapStartsFromPrior", "DefaultVariances",
+                                 "ReinitRestoresPrior"],
                      constraints=[] if expect_violation else ["Export"])
         r = tlc.run(ck.work, "MC_GmmFit", cfg, root_text=text, workers=4, coverage=not quick, expect_violation=expect_violation)
         ck.account(name, r, expect_violation=expect_violation)
         return r.records
     recs = model("fit-control-flow")
-    for d in ("FIT_REINITIALISES_EVERY_CALL",):
+    for d in ("FIT_REINITIALISES_EVERY_CALL", "REINIT_KEEPS_WEIGHTS"):
         model("deviation:" + d, dev=[d], expect_violation=True)
     if quick and len(recs) > 60:
         recs = rng.sample(recs, 60)
@@ -132,9 +156,14 @@ def fit_control(ck, em, rng, quick):
         r = np.random.RandomState(seed)
         X, init = gt.make_problem(r)
         C = len(init["weights"])
+        ops = [h["op"] for h in rec["hist"]]
         caps = [h["cap"] for h in rec["hist"]]
         first = rec["hist"][0]
         user_means = first["means0"] == "user"
+        # "user" means any value the user may assign: every fifth scenario assigns all-zero means (a component at the
+        # origin is a legitimate parameter, not "unset")
+        if user_means and seed % 5 == 0:
+            init["means"] = np.zeros_like(init["means"])
         kinit = X[r.choice(len(X), size=C, replace=False)] + 0.01
         prior = None
         if rec["trainer"] == "map":
@@ -160,10 +189,30 @@ def fit_control(ck, em, rng, quick):
                "caps": caps, "seed": seed}
         try:
             m = build(caps[0])
-            for k in caps:
+            after = 0           # iterations since the last re-initialisation
+            reinit_bad = None
+            for o, k in zip(ops, caps):
+                if o == "reinit":
+                    m.initialize_gaussians()
+                    after = 0
+                    got3 = gt.params(m)
+                    want3 = gt.params(prior)
+                    if not gt.same_params(got3, want3):
+                        reinit_bad = "after initialize_gaussians(): weights %s means %s variances %s; the prior's %s %s %s" % tuple(
+                            a.tolist() for a in got3 + want3)
+                        break
+                    continue
                 m.max_fitting_steps = k
                 m.fit(X)
-            ref = build(sum(caps))
+                after += k
+            if reinit_bad:
+                ck.violation("M2:GmmFit:ReinitRestoresPrior", {"mechanism": "M2", "module": "GmmFit",
+                             "scenario": {"trainer": rec["trainer"], "calls": list(zip(ops, caps)), "seed": seed}, "detail": reinit_bad})
+                continue
+            last_reinit = max([i for i, o in enumerate(ops) if o == "reinit"], default=-1)
+            ref = build(after)
+            if last_reinit >= 0:
+                ref.initialize_gaussians()          # (a re-initialised MAP machine starts from the prior, not from what the user assigned)
             ref.fit(X)
         except Exception as e:
             ck.violation("M2:GmmFit:Raised", {"mechanism": "M2", "module": "GmmFit", "scenario": scn,
@@ -171,8 +220,8 @@ def fit_control(ck, em, rng, quick):
             continue
         if not gt.same_params(gt.params(m), gt.params(ref)):
             ck.violation("M2:GmmFit:FitsCompose", {"mechanism": "M2", "module": "GmmFit", "scenario": scn,
-                                                   "detail": "fit() calls with caps %s on one object differ from one fit with cap %d "
-                                                             "from the same start" % (caps, sum(caps))})
+                                                   "detail": "calls %s on one object differ from one fit with cap %d "
+                                                             "from the same start" % (list(zip(ops, caps)), after)})
             continue
         # provenance of the starting point: a fit with cap 0 shows what the initialisation produced
         m0 = build(0)
